@@ -33,6 +33,7 @@ from asyncio import (
     AbstractEventLoop as Loop,
     run_coroutine_threadsafe as run_coro_ts,
 )
+from math import inf
 from itertools import islice
 from threading import Lock
 from functools import partial, wraps
@@ -1109,6 +1110,8 @@ class AsyncBackgroundBatcher(Generic[A_contra, R_co]):
     _loop_task: 'DaemonTask'
     #: Cache for recently completed futures to avoid duplicate requests
     _retention_cache: 'dict[str, aio.Future[R_co]]'
+    #: Time (of the loop) until which a completed future is retained
+    _retention_expiry: 'dict[str, float]'
 
     def __init__(self,
                  func: _BatchFunc[A_contra, R_co],
@@ -1138,6 +1141,7 @@ class AsyncBackgroundBatcher(Generic[A_contra, R_co]):
 
         self.retention_timeout = retention_timeout
         self._retention_cache = {}
+        self._retention_expiry = {}
 
         self._semaphore = aio.Semaphore(value=max_concurrent_batches)
 
@@ -1158,6 +1162,11 @@ class AsyncBackgroundBatcher(Generic[A_contra, R_co]):
 
         try:
             fut = self._retention_cache[key]
+            if self._loop.time() >= self._retention_expiry.get(key, inf):
+                # Retained long enough, the timer which drops it just
+                # didn't get to run yet (loop wasn't running or is busy)
+                self._evict(key, fut)
+                raise KeyError(key)
         except KeyError:
             fut = self._retention_cache[key] = self._loop.create_future()
             # Forget the key once the result is in, not when the first
@@ -1175,14 +1184,26 @@ class AsyncBackgroundBatcher(Generic[A_contra, R_co]):
         """
         fut.cancelled() or fut.exception()  # Mark exception as retrieved
         if self.retention_timeout > 0:
+            self._retention_expiry[key] = (
+                self._loop.time() + self.retention_timeout
+            )
             self._loop.call_later(
                 self.retention_timeout,
-                self._retention_cache.pop,
+                self._evict,
                 key,
-                None,
+                fut,
             )
         else:
-            self._retention_cache.pop(key, None)
+            self._evict(key, fut)
+
+    def _evict(self, key: str, fut: 'aio.Future[R_co]') -> None:
+        """
+        Drop the given finished future from the retention cache unless
+        that already happened (and the key may be in use again).
+        """
+        if self._retention_cache.get(key) is fut:
+            del self._retention_cache[key]
+            self._retention_expiry.pop(key, None)
 
     def _daemon_task(
         self,
